@@ -169,7 +169,10 @@ def cache_initial_data_leak(f, **kw):
         if "None" not in vals:
             return False
         other = (vals - {"None"}).pop() if len(vals) == 2 else None
-        if other is None or not any(other == f"init.{src}.{c['sa']}" for c in feeding):
+        from . import scn as _S
+
+        # (the initial-data token of that source attribute / source entity, as the scenario declares it - entity ids may be decorated)
+        if other is None or not any(other == _S.init_token({"src": src, "sa": c["sa"], "se": se}) for c in feeding):
             return False
     return True
 
